@@ -15,7 +15,7 @@ for g in "C18 BL-" "C09 SCALE-" "C06 EAN" "C08 CODABAR" "C08 TOF" "C07 C39" "C07
   f=$LOG/$2.log
   [ -s "$f" ] && continue
   start=$(date +%s)
-  timeout 3600 ./bin/vpcheck check -prop $1 -tier thorough -only $2 -no-evidence -v > $f 2>&1
+  timeout 600 ./bin/vpcheck check -prop $1 -tier thorough -only $2 -no-evidence -v > $f 2>&1
   echo "$2 rc=$? $(( $(date +%s) - start )) s $(grep -c '^INCONCLUSIVE' $f) inconclusive $(grep -c '^VIOLATION' $f) violations" >> $LOG/SUMMARY.txt
 done
 echo done >> $LOG/SUMMARY.txt
